@@ -538,6 +538,16 @@ func normFC(fc types.FileContract) types.FileContract {
 func (w *World) checkSupply() *Problem {
 	r := w.Ref
 	lhs, rhs := r.Supply()
+	if r.Overpaid.Sign() > 0 {
+		era := "revision accepted below the ephemeral-output height (legacy rule)"
+		if r.OverpaidCurrent {
+			era = "revision accepted under the current rules"
+		}
+		return problem("supply|v2-expiration-pays-more-than-locked|"+era, "height %d: v2 contract expirations paid %v more than the contracts held (missed host value above the host output; %s): siacoins created from nothing", w.Height(), r.Overpaid, era)
+	}
+	if p := w.overpayWitness(); p != nil {
+		return p
+	}
 	if lhs.Cmp(rhs) != 0 {
 		return problem("supply|equation", "height %d: unspent+locked+pool+forfeited = %v but genesis+subsidies = %v (difference %v)", w.Height(), lhs, rhs, lhs.Sub(lhs, rhs))
 	}
@@ -570,6 +580,45 @@ func (w *World) checkSupply() *Problem {
 			if sum.Cmp(want) != 0 {
 				return problem("supply|fees", "miner payouts %v != reward + fees %v", sum, want)
 			}
+		}
+	}
+	return nil
+}
+
+// overpayWitness: the supply equation is not inductive by itself - a live v2 contract whose missed host value exceeds
+// its host output pays more than it holds when it expires. Whenever such a contract exists in an accepted state, the
+// expiry is actually played out on a clone (empty blocks up to the expiration height, then the expiration
+// transaction); a violation is reported only if the real code accepts that block and the payouts exceed the locked
+// value, with the continuation named in the description.
+func (w *World) overpayWitness() *Problem {
+	for _, e := range w.Ref.Live(KV2FC) {
+		fc := e.V2FC
+		if fc.MissedHostValue.Cmp(fc.HostOutput.Value) <= 0 {
+			continue
+		}
+		c := w.Clone()
+		c.Opt = Options{CheckLedger: true}
+		for c.ChildHeight() <= fc.ExpirationHeight {
+			b, bs := c.BuildBlock(nil, nil, BlockOpts{})
+			if err, p := c.Apply(b, bs); err != nil || p != nil {
+				return nil // cannot extend (not a supply matter; other oracles look at it)
+			}
+		}
+		fce, ok := c.Store.V2FC[types.FileContractID(e.ID)]
+		if !ok {
+			continue
+		}
+		b, bs := c.BlockOfUses(c.UseV2Expire(fce))
+		if err, p := c.Apply(b, bs); err != nil || p != nil {
+			continue
+		}
+		if c.Ref.Overpaid.Sign() > 0 {
+			era := "revision accepted below the ephemeral-output height (legacy rule)"
+			if c.Ref.OverpaidCurrent {
+				era = "revision accepted under the current rules"
+			}
+			return problem("supply|v2-expiration-pays-more-than-locked|"+era, "height %d: live v2 contract %x has missed host value %v above its host output %v (%s); continuation played out: %d empty blocks, then its expiration at height %d was ACCEPTED and paid %v more than the contract held: siacoins created from nothing",
+				w.Height(), e.ID[:4], fc.MissedHostValue, fc.HostOutput.Value, era, c.Height()-1-w.Height(), c.Height(), c.Ref.Overpaid)
 		}
 	}
 	return nil
